@@ -23,15 +23,22 @@ CSRCases == { [t |-> t, exp |-> ExpectedCSR(t)] : t \in CSRTemplates }
 
 -----------------------------------------------------------------------------
 (* issuers *)
+\* by: <<>> = the signer is self-signed; <<name>> = the signer is an intermediate / cross-signed CA issued
+\* under that other name (its own issuer # its subject)
 IssuerRec(subject, skid, key, crlSign, canSign) ==
-  [subject |-> subject, skid |-> skid, key |-> key, crlSign |-> crlSign, canSign |-> canSign]
+  [subject |-> subject, skid |-> skid, key |-> key, crlSign |-> crlSign, canSign |-> canSign, by |-> <<>>]
 IssuerBase == IssuerRec([N("CRL Issuer") EXCEPT !.o = <<"Issuing Org">>], "a1a2a3a4a5", "ed25519", TRUE, TRUE)
 IssuerVariants == { IssuerBase,
                     [IssuerBase EXCEPT !.subject = NameFull], [IssuerBase EXCEPT !.subject = NameSpecial],
                     [IssuerBase EXCEPT !.skid = "000102030405060708090a0b0c0d0e0f10111213"],
                     [IssuerBase EXCEPT !.skid = ""],              \* outside the preconditions (v2)
                     [IssuerBase EXCEPT !.crlSign = FALSE],        \* outside the preconditions (v2)
-                    [IssuerBase EXCEPT !.canSign = FALSE] }       \* issuer that is no CA
+                    [IssuerBase EXCEPT !.canSign = FALSE],        \* issuer that is no CA
+                    \* the signer dimension: intermediate, cross-signed, multi-RDN / UTF-8 subjects
+                    [IssuerBase EXCEPT !.by = <<N("Root CA")>>],
+                    [IssuerBase EXCEPT !.by = <<[N("CRL Issuer") EXCEPT !.o = <<"Another Org">>]>>],
+                    [IssuerBase EXCEPT !.subject = NameFull, !.by = <<NameSpecial>>],
+                    [IssuerBase EXCEPT !.subject = NameSpecial, !.by = <<NameFull>>, !.skid = "0102"] }
 
 -----------------------------------------------------------------------------
 (* v2 revocation lists *)
@@ -79,7 +86,8 @@ CRLEntryLists == { <<>> }
            CRLEntry("02", T(700000000, 500, 60), UserExts["reason"])>> }
 CRLBase == [entries |-> <<>>, now |-> T(662774400, 0, 0), expiry |-> T(663379200, 0, 0), issuer |-> IssuerBase]
 CRLTemplates ==
-  { [CRLBase EXCEPT !.entries = e, !.issuer = i] : e \in CRLEntryLists, i \in {IssuerBase, [IssuerBase EXCEPT !.skid = ""]} }
+  { [CRLBase EXCEPT !.entries = e, !.issuer = i] : e \in CRLEntryLists,
+      i \in {IssuerBase, [IssuerBase EXCEPT !.skid = ""], [IssuerBase EXCEPT !.subject = NameFull, !.by = <<N("Root CA")>>]} }
   \cup { [CRLBase EXCEPT !.now = a, !.expiry = b] : a \in QTimes, b \in QTimes }
   \cup { [CRLBase EXCEPT !.issuer = [i EXCEPT !.key = k], !.entries = e] : i \in IssuerVariants, k \in KeyTypes,
            e \in IF Quick5 THEN {<<CRLEntry("01", T(700000000, 0, 0), <<>>)>>} ELSE {<<>>, <<CRLEntry("01", T(700000000, 0, 0), <<>>)>>} }
